@@ -10,10 +10,10 @@ TIE_A = ['sig_%s_documented' % m for m in ('g2c', 'g3c', 'gac', 'dpga', 'dg3c')]
 OBLIGATIONS = [
     'C08.eo_is_null', 'C08.einf_is_null', 'C08.eo_dot_einf_eq', 'C08.E0_squares_to_one', 'C08.up_is_null', 'C08.up_dot_einf_eq',
     'C08.distance_identity', 'C08.homo_removes_scale', 'C08.down_up_id', 'C08.model_satisfies_relations',
-    'C08.inner_is_half_anticommutator', 'C08.wedge_is_half_commutator',
+    'C08.inner_is_half_anticommutator', 'C08.wedge_is_half_commutator', 'C08.vector_wedge_bivector',
 ]
-PARTIAL = ['the identities use a.b = (ab+ba)/2 (proved equal to the coded inner-product table on vectors: inner_is_half_anticommutator) and v^E0 = (vE0+E0v)/2 for the '
-           'bivector E0 (vector-bivector case not proved; exercised on the implementation)',
+PARTIAL = ['the identities use a.b = (ab+ba)/2 and v^E0 = (vE0+E0v)/2; both are proved equal to the coded inner/outer-product tables (inner_is_half_anticommutator, '
+           'vector_wedge_bivector), but the abstract statements and the table-level statements are joined by these lemmas on paper, not by one composite Lean theorem',
            'gac / dpga / dg3c up/down round trips: no Lean theorem (fixed 8- and 10-dimensional algebras); decided by exact evaluation on the implementation only']
 RULE = ("base signatures (p,q) with p+q<=4 (quick) / <=6 (thorough), every split; base vectors with integer and dyadic coordinates over 2^-10..2^20, "
         "non-zero dyadic scales; gac/dpga/dg3c points with dyadic coordinates. Non-trivial = non-zero base vector; distinct = distinct (p,q,x,y,s)")
